@@ -48,6 +48,7 @@ RULE += ' Round 6: templates whose first sample only is NaN; attribute files nam
 RULE += ' Round 7: a parameter file in another folder naming the data folder (dir_path) with decoy raw files beside it; files created by loading must be files of their own (no hard links).'
 RULE += ' Round 8: array files that are symbolic links into another folder (that folder is snapshotted too); a sorted spike_times_reordered.npy beside unsorted times (refusal required); per-spike attribute files of shape (n, 2).'
 RULE += ' Round 9: raw parts with equal base names (run<k>/continuous.dat); stored seconds with an inversion of a fifth of a sample; the caller writes to model.spike_clusters and spike_templates is compared again.'
+RULE += ' Round 10: regular (unjittered) geometries; the all-NaN template may be one without spikes, and templates are compared (all-NaN -> zeros) in that case too.'
 EXHAUSTIVE = {'quick': False, 'thorough': False}
 FLOORS = {'quick': {'evaluations': 1500, 'distinct_nontrivial': 800, 'monitors': {'M1.checked': 2000}},
           'thorough': {'evaluations': 20000, 'distinct_nontrivial': 5000, 'monitors': {'M1.checked': 5000}}}
